@@ -16,6 +16,9 @@ type Solver struct {
 	out   *bufio.Reader
 	Bin   string
 	Errs  int
+	// FirstErr: text of the first error (an "(error ...)" line of the solver, or the end of its
+	// output: the process died, typically of the address-space cap)
+	FirstErr string
 	log   io.Writer
 	start time.Time
 }
@@ -70,6 +73,9 @@ func (s *Solver) readLine() (string, error) {
 	line = strings.TrimSpace(line)
 	if strings.HasPrefix(line, "(error") {
 		s.Errs++
+		if s.FirstErr == "" {
+			s.FirstErr = line
+		}
 	}
 	return line, err
 }
@@ -97,6 +103,9 @@ func (s *Solver) Check(extra []string, timeoutMs int, getvals []string) (res str
 		if err != nil {
 			res = "unknown"
 			s.Errs++
+			if s.FirstErr == "" {
+				s.FirstErr = "solver output ended: " + err.Error() + " (process died: memory cap or killed)"
+			}
 			return res, "", time.Since(t0).Seconds()
 		}
 		if line == "sat" || line == "unsat" || line == "unknown" || line == "timeout" {
